@@ -17,6 +17,8 @@ from ..util import (has_call, find_calls, assigned_value, const_str, unparse, kw
                     guards_of, call_tail, control_ancestors, node_ast_for_effects)
 from .. import mutate as M
 
+TECHNIQUE = 'static analysis: typestate over the CFG of get_set/rmv with guard/effect summaries extracted from the lock helpers, finite-domain invariant check of the protocol, guarded-by rule for the shared counter, failed-population rule, process-local-source rule for the slot index'
+
 EXPLANATION = ("Typestate analysis of ConcurrentCacher: (1) guards/effects of the five lock helpers on the shared counter and the "
                "per-thread lock cell are extracted from their source; (2) get_set, rmv and the context-manager helper are "
                "abstractly executed over their CFGs (exception and GeneratorExit edges included) with those summaries: at every "
@@ -25,6 +27,7 @@ EXPLANATION = ("Typestate analysis of ConcurrentCacher: (1) guards/effects of th
                "sleep never does; (4) the extracted guard/effect table preserves 'A==-1 <=> one writer, no reader; A==n>=0 <=> n "
                "readers, no writer' on a finite abstract domain; (5) inner-cache reads happen under a read lock, population and "
                "removal under the write lock; (6) a failed population removes the entry; (7) callers use `with`.")
+EXPLANATION += ' R8: the lock-slot index is a fixed digest of the key with no process-local source.'
 
 CCH = "coba/context/cachers.py"
 HELPERS = ("_acquire_read_lock", "_release_read_lock", "_acquire_write_lock", "_release_write_lock", "_switch_write_to_read_lock")
